@@ -14,6 +14,7 @@ use std::str::FromStr;
 pub fn gens() -> Vec<Gen> {
     vec![
         Gen { name: "c02.structural", prop: "C02", tags: &["alg", "key", "resolver", "swap", "verify_sd_jwt", "src/verifier.rs"], cases: cases_structural, check },
+        Gen { name: "c02.hidden_iss", prop: "C02", tags: &["iss", "resolver", "disclosure", "unverified_issuer", "cb_get_issuer_key"], cases: cases_hidden_iss, check: check_hidden_iss },
         Gen { name: "c02.json_envelope", prop: "C02", tags: &["envelope", "json", "signatures", "general", "parse_json", "src/lib.rs"], cases: cases_envelope, check },
         Gen { name: "c02.padding", prop: "C02", tags: &["pad", "json", "parse_json", "src/lib.rs"], cases: cases_padding, check },
         Gen { name: "c02.chars", prop: "C02", tags: &["char", "subst", "signature"], cases: cases_chars, check },
@@ -737,5 +738,94 @@ pub fn check(case: &J) -> Verdict {
             "rejected with an error",
         ),
         Out::Panic(msg) => fail(format!("PANIC: {msg}"), "rejected with an error"),
+    }
+}
+
+/// Hand-signed tokens whose payload has NO plain `iss` (it is offered through disclosures),
+/// a resolver keyed by issuer id with two registered issuers and different keys.
+fn cases_hidden_iss(_rng: &mut Rng, sink: &mut dyn FnMut(J) -> bool) {
+    // disclosure list layouts: R = referenced [salt,"iss",X], U = unreferenced [salt,"iss",Y]
+    let layouts = [vec!["U", "R"], vec!["R", "U"], vec!["R"], vec!["U"], vec!["U", "U2", "R"], vec![]];
+    let mut n = 0usize;
+    for fam in ["ES256", "EdDSA", "HS256"] {
+        for format in ["compact", "json"] {
+            for layout in &layouts {
+                for (referenced, unreferenced, signer) in [("A", "B", "B"), ("A", "B", "A"), ("B", "A", "B"), ("A", "A", "B"), ("B", "B", "A")] {
+                    for plain in [J::Null, json!(5), json!(["A"]), json!({"id": "A"})] {
+                        for kb in [false, true] {
+                            n += 1;
+                            if kb && n % 3 != 0 {
+                                continue;
+                            }
+                            if !sink(json!({"family": fam, "format": format, "layout": layout, "referenced": referenced, "unreferenced": unreferenced, "signer": signer, "plain_iss": plain, "kb": kb})) {
+                                return;
+                            }
+                        }
+                    }
+                }
+            }
+        }
+    }
+}
+
+fn check_hidden_iss(case: &J) -> Verdict {
+    let fam = case["family"].as_str().unwrap_or("ES256");
+    let format = case["format"].as_str().unwrap_or("compact");
+    let (iss_a, iss_b) = ("https://issuer-a.example", "https://issuer-b.example");
+    let key_of = |who: &str| if who == "A" { fam.to_string() } else { format!("{fam}-other") };
+    let iss_of = |who: &str| if who == "A" { iss_a } else { iss_b };
+    let resolver = json!({ iss_a: key_of("A"), iss_b: key_of("B") });
+    let referenced = case["referenced"].as_str().unwrap_or("A");
+    let unreferenced = case["unreferenced"].as_str().unwrap_or("B");
+    let signer = case["signer"].as_str().unwrap_or("B");
+    let want_kb = case["kb"].as_bool().unwrap_or(false);
+    // templates: #0 = referenced iss disclosure, #1 = an ordinary claim
+    let mut payload = json!({"exp": FAR_EXP, "vis": "v", "_sd": ["#0", "#1"]});
+    if !case["plain_iss"].is_null() {
+        payload["iss"] = case["plain_iss"].clone(); // not a usable issuer identifier
+    }
+    if want_kb {
+        payload["cnf"] = json!({"jwk": keys::holder_jwk_json("es256")});
+    }
+    let (payload, ds) = crate::pipeline::build_crafted(&payload, &[json!(["c2FsdC1zYWx0LXNhbHQtMDE", "iss", iss_of(referenced)]), json!(["c2FsdC1zYWx0LXNhbHQtMDI", "n1", 1])]);
+    let r = ds[0].clone();
+    let u = crate::util::make_disclosure(&json!(["c2FsdC1zYWx0LXNhbHQtMDM", "iss", iss_of(unreferenced)]));
+    let u2 = crate::util::make_disclosure(&json!(["c2FsdC1zYWx0LXNhbHQtMDQ", "iss", iss_b]));
+    let mut list: Vec<String> = Vec::new();
+    for item in case["layout"].as_array().cloned().unwrap_or_default() {
+        match item.as_str() {
+            Some("R") => list.push(r.clone()),
+            Some("U") => list.push(u.clone()),
+            Some("U2") => list.push(u2.clone()),
+            _ => {}
+        }
+    }
+    list.push(ds[1].clone());
+    let mut seen = std::collections::HashSet::new();
+    if !list.iter().all(|d| seen.insert(d.clone())) {
+        return Verdict::Trivial;
+    }
+    let jwt = sign(&payload, &key_of(signer));
+    let kb = crate::sut::Kb::new("es256");
+    let kbs = if want_kb { crate::pipeline::make_kb(&keys::holder_enc("es256"), "ES256", Some("kb+jwt"), &crate::pipeline::honest_kb_claims(&kb, &jwt, &list)) } else { None };
+    let text = Parts { jwt, disclosures: list, kb: kbs }.serialize(format);
+    let (a, n) = if want_kb { (Some(kb.aud.as_str()), Some(kb.nonce.as_str())) } else { (None, None) };
+    match sut::verify_with(&text, &resolver, a, n, format) {
+        Out::Err(_) => Verdict::Pass,
+        Out::Panic(m) => fail(format!("PANIC: {m}"), "Ok or Err"),
+        Out::Ok(v) => {
+            // accepted: then the signature must have verified under the key registered for the issuer
+            // the verified claims name
+            let named = v.get("iss").and_then(|i| i.as_str()).unwrap_or("");
+            let named_key = resolver.get(named).and_then(|k| k.as_str()).unwrap_or("<none>");
+            if named_key == key_of(signer) {
+                Verdict::Pass
+            } else {
+                fail(
+                    format!("ACCEPTED a token signed with the key of issuer {} ({}); verified claims say iss = {:?} whose registered key is {named_key}; claims {}", signer, key_of(signer), named, short(&jstr(&v), 300)),
+                    "rejected: the signature does not verify under the key the resolver has for the token's iss",
+                )
+            }
+        }
     }
 }
